@@ -458,5 +458,57 @@ func runAreaSign(c *core.Ctx) []core.Obligation {
 	} else {
 		obs = append(obs, core.Ob("R-AREASIGN", "PolygonFromOrientedLoops:origin-parity", "-", "", core.Violated, "unresolved anchor"))
 	}
+	// the per-loop normalisation is decided by the MAGNITUDE of the turning angle (after round-6 seed C18-r6m2,
+	// `math.Abs(angle) > err` reduced to `angle > err`): a clearly clockwise loop (angle < -err) must be inverted; if it
+	// is sent down the "angle is indistinguishable from zero" branch instead, it is only inverted when it happens to
+	// contain the origin, and a clockwise hole that does not stays un-normalised - the polygon comes out as the complement.
+	if fn := c.Fn("s2", "", "PolygonFromOrientedLoops"); fn != nil {
+		const construct = "PolygonFromOrientedLoops:normalise-by-absolute-angle"
+		found, ok := false, false
+		ncmp := 0
+		core.AllInstrs(fn, func(in ssa.Instruction) {
+			bo, isBo := in.(*ssa.BinOp)
+			if !isBo {
+				return
+			}
+			isErr := func(v ssa.Value) bool {
+				if u, isU := v.(*ssa.UnOp); isU && u.Op == token.SUB {
+					v = u.X // -error: the lower half of a two-sided test
+				}
+				call, isC := v.(*ssa.Call)
+				return isC && core.StaticCallee(call) != nil && core.StaticCallee(call).Name() == "turningAngleMaxError"
+			}
+			var other ssa.Value
+			switch {
+			case isErr(bo.Y):
+				other = bo.X
+			case isErr(bo.X):
+				other = bo.Y
+			default:
+				return
+			}
+			found = true
+			ncmp++
+			if ncmp >= 2 {
+				ok = true // written as a two-sided test (angle > e || angle < -e)
+			}
+			if abs, isC := other.(*ssa.Call); isC && core.StaticCallee(abs) != nil && core.StaticCallee(abs).Name() == "Abs" && len(abs.Call.Args) == 1 {
+				if ta, isT := abs.Call.Args[0].(*ssa.Call); isT && core.StaticCallee(ta) != nil && core.StaticCallee(ta).Name() == "TurningAngle" {
+					ok = true
+				}
+			}
+		})
+		switch {
+		case !found:
+			obs = append(obs, core.Ob("R-AREASIGN", construct, c.Pos(fn.Pos()), core.FuncName(fn), core.Violated, "unresolved anchor: the comparison with turningAngleMaxError() was not found"))
+		case ok:
+			obs = append(obs, core.Ob("R-AREASIGN", construct, c.Pos(fn.Pos()), core.FuncName(fn), core.Discharged, "|TurningAngle()| is compared with the error bound, so both clearly oriented cases reach the sign test"))
+		default:
+			obs = append(obs, core.Ob("R-AREASIGN", construct, c.Pos(fn.Pos()), core.FuncName(fn), core.Violated,
+				"the turning angle itself, not its absolute value, is compared with turningAngleMaxError(): a clearly clockwise loop (angle < -error) is treated like a loop whose orientation cannot be told, is inverted only if it contains the origin, and otherwise stays clockwise - the assembled polygon is the complement of the intended one, its area is 4*Pi minus the right value and its centroid is negated"))
+		}
+	} else {
+		obs = append(obs, core.Ob("R-AREASIGN", "PolygonFromOrientedLoops:normalise-by-absolute-angle", "-", "", core.Violated, "unresolved anchor"))
+	}
 	return obs
 }
